@@ -11,13 +11,17 @@ package main
 //     a callee is the Section variable ext_<name>_nil whose Map result is `option entries` (None = nil).
 //   - time.Sleep / <-time.After change no value.
 //   - The loop `for { m, err := f(rdr); ... }` runs on fuel 2 + the length of the reader's schedule.
+//   - The file readers NewMapsFromJsonFile / NewMapsFromXmlFile are translated in the same mode: os.Stat / os.Open are the
+//     environment functions ext_os_Stat (is it a regular file) and ext_os_Open (the schedule of Read results the file delivers),
+//     `defer fh.Close()` changes no value.
 
 import (
 	"go/ast"
 	"strings"
 )
 
-var handlerFuncs = map[string]bool{"HandleXmlReader": true, "HandleXmlReaderRaw": true, "HandleJsonReader": true, "HandleJsonReaderRaw": true}
+var handlerFuncs = map[string]bool{"HandleXmlReader": true, "HandleXmlReaderRaw": true, "HandleJsonReader": true, "HandleJsonReaderRaw": true,
+	"NewMapsFromJsonFile": true, "NewMapsFromXmlFile": true}
 
 // handlerCall: ok := h(a1, ..., an) with h a handler parameter.  done = it was handled here.
 func (t *fnTr) handlerCall(x *ast.AssignStmt, c *ast.CallExpr, next func() string) (string, bool) {
@@ -43,12 +47,7 @@ func (t *fnTr) handlerCall(x *ast.AssignStmt, c *ast.CallExpr, next func() strin
 		al := t.lvarOf(a)
 		switch ks[i] {
 		case "vmap":
-			switch {
-			case al != nil && al.kind == "vmapn":
-				args = append(args, "(match "+al.name+" with Some m_ => m_ | None => [] end)")
-			default:
-				args = append(args, t.expr(a))
-			}
+			args = append(args, t.expr(a))
 		case "errc":
 			if al == nil || al.kind != "errv" {
 				t.unsupported(x, "error argument of a handler other than an error variable")
